@@ -36,6 +36,9 @@ type Profile struct {
 	NoFinishExits      bool
 }
 
+// OnExclude is told when the generator avoids the class of a known finding by construction.
+var OnExclude func(id string)
+
 var allConds = []string{"process_completed", "process_completed_successfully", "process_healthy", "process_started", "process_log_ready"}
 
 func names(n int) []string {
@@ -250,7 +253,38 @@ func APIStep(t *rapid.T, e *sc.Exec, pr Profile) (sc.Step, bool) {
 		}
 		return st, true
 	default:
-		return sc.Step{Op: op, Proc: pick(t, nm, "apiproc")}, true
+		proc := pick(t, nm, "apiproc")
+		if (op == sc.OpStart || op == sc.OpRestart) && e.OutstandingOn(proc, sc.OpStart, sc.OpRestart) > 0 {
+			// known finding C08-concurrent-start: overlapping start/restart requests on one process
+			if OnExclude != nil {
+				OnExclude("C08-concurrent-start")
+			}
+			return sc.Step{}, false
+		}
+		if (op == sc.OpStart || op == sc.OpRestart) && !e.RunReturned() && shutdownBegan(e) {
+			// same root cause: the request is served when the shutdown ends, i.e. exactly while Run() returns
+			if OnExclude != nil {
+				OnExclude("C20-restart-last-process")
+			}
+			return sc.Step{}, false
+		}
+		if sp := e.Sc.Spec(proc); op == sc.OpRestart && !e.RunReturned() && len(e.W.LiveCmds(proc)) > 0 &&
+			(len(e.W.LiveCmds("")) == len(e.W.LiveCmds(proc)) || (sp != nil && (sp.ExitOnEnd || sp.Restart == "exit_on_failure"))) {
+			// known finding C20-restart-last-process: restarting the only live process lets Run()'s
+			// WaitGroup reach zero while the restart adds to it again (runtime panic)
+			if OnExclude != nil {
+				OnExclude("C20-restart-last-process")
+			}
+			return sc.Step{}, false
+		}
+		if op == sc.OpRestart && pendingInstance(e, proc) {
+			// known finding C09-restart-while-pending: the stopped and the new instance share one status
+			if OnExclude != nil {
+				OnExclude("C09-restart-while-pending")
+			}
+			return sc.Step{}, false
+		}
+		return sc.Step{Op: op, Proc: proc}, true
 	}
 }
 
@@ -341,4 +375,35 @@ func RunSteps(t *rapid.T, s *sc.Scenario, pr Profile) *sc.History {
 		do(st)
 	}
 	return e.Finish()
+}
+
+// pendingInstance: the process is registered but has not launched anything yet
+// (waiting for its dependencies, possibly already stopped there).
+func pendingInstance(e *sc.Exec, proc string) bool {
+	sp := e.Sc.Spec(proc)
+	if sp == nil || sp.Disabled || sp.Foreground || len(sp.Deps) == 0 {
+		return false
+	}
+	if len(e.W.LiveCmds(proc)) > 0 {
+		return false
+	}
+	last := ""
+	for _, ev := range e.W.Events() {
+		if ev.Proc == proc && ev.Kind == "state" {
+			last = ev.Text
+		}
+	}
+	return last == "" || last == "Pending" || last == "Terminating"
+}
+
+func shutdownBegan(e *sc.Exec) bool {
+	if e.ShutdownSeen {
+		return true
+	}
+	for _, ev := range e.W.Events() {
+		if ev.Kind == "mark" && ev.Text == "shutdown-begin" {
+			return true
+		}
+	}
+	return false
 }
